@@ -45,6 +45,8 @@ def run(ck):
     # the counter handler is seen through AttrHandler::process: it must ask attributes(lmsg) and merge the answer for every message, whatever state the
     # message is in (already formatted, already carrying attributes) - otherwise messages pass without a number and the numbers of their neighbours no longer
     # say how many messages the handler has seen
+    ck.rule("C16-O12", "Logger::processMessage runs the handler list for every message (no early verdict on behalf of a filter further down)")
+    logger_runs_the_handlers(ck)
     ck.rule("C16-O11", "AttrHandler::process calls updateAttributes(attributes(lmsg)) exactly once on every path (no short cut keyed on the message's state)")
     ap_ = F.fn("QtLogger::AttrHandler::process")
     ck.touch(ap_)
@@ -427,3 +429,26 @@ def evaluated_once(ck):
           "Pipeline::process has %d loops over the whole handler list that each call process(): the handlers the first loop reaches are shown every message a second time by the other — "
           "a DuplicateFilter among them compares the message with itself and drops it, a SeqNumberAttr counts it twice" % len(whole) if definite else
           "Pipeline::process invokes Handler::process from %d places" % len(sites), key="Pipeline::process|evaluated-once")
+
+
+def logger_runs_the_handlers(ck):
+    """C16-O12: "whether or not later handlers drop them" - the handlers in front of a filter see every message. A short cut in the logger's entry
+    function that answers for a filter further down (pre-checking a LevelFilter before the message is even constructed) takes the dropped
+    messages away from the attribute handlers and stateful filters in front of it: sequence numbers then count survivors only."""
+    F = ck.facts
+    pm = F.fn("QtLogger::Logger::processMessage")
+    ck.touch(pm)
+    g = Graph(pm)
+
+    def on_this(n):
+        o = n.get("obj")
+        o = skip_copies(o) if isinstance(o, dict) else None
+        return o is None or o.get("k") == "this" or (isinstance(o, dict) and skip_copies(deref_local(pm, unwrap_ptr(o))).get("k") == "this")
+    runs = [n for n in pm.calls() if name_is(n.get("callee"), "process") and on_this(n)]
+    if not runs:
+        ck.ob("C16-O12", sitestr(pm), None, "processMessage: the run of the pipeline was not found", key="Logger::processMessage|every-message")
+        return
+    ok = g.must_pass(set(g.sites_of_nodes(runs)))
+    ck.ob("C16-O12", sitestr(pm, runs[0]), ok, "every message handed to the logger is run through its handlers (no verdict is taken ahead of them)" if ok else
+          "processMessage can return without running the handlers: a message rejected this way is never seen by the attribute handlers and stateful filters in front of the filter that would have "
+          "dropped it - a SeqNumberAttr numbers the survivors 0,1,2 where it numbers 1,4,7 today", key="Logger::processMessage|every-message")
